@@ -54,7 +54,8 @@ def _ops(version: str):
         st.builds(lambda n: ["rx", f"{n};255;3;0;33;\n"], node),
         st.builds(lambda n, t: ["rx", f"{n};255;0;0;{t};2.0\n"], node, st.sampled_from((17, 18))),
         st.builds(lambda n, c: ["rx", f"{n};{c};0;0;3;relay\n"], node, child),
-        st.sampled_from((["rx", "0;255;3;0;9;log\n"], ["rx", "0;255;3;0;2;2.2.0\n"], ["rx", "0;255;3;0;2;2.0.1\n"], ["rx", "junk\n"], ["session"], ["session"])),
+        st.sampled_from((["rx", "0;255;3;0;9;log\n"], ["rx", "0;255;3;0;2;2.2.0\n"], ["rx", "0;255;3;0;2;2.0.1\n"], ["rx", "junk\n"], ["session"], ["session"], ["save"], ["reload"],
+                         ["rx", "0;255;3;0;14;Gateway startup complete.\n"])),
     )
     incoming = gen.with_ack(st.builds(lambda n, c, t, v: f"{n};{c};1;0;{t};{v}\n", node, child, vtype, value)).map(lambda l: ["rx", l])
     free = st.lists(gen.weighted((4, send), (2, wake), (2, incoming), (1, other)), min_size=8, max_size=30)
@@ -109,6 +110,8 @@ INTERVENING = (
     "11;1;2;0;3;\n", "11;1;2;1;3;\n", "11;2;2;0;3;\n",  # the node asks for a value
     "11;1;0;0;3;relay\n", "11;255;0;0;17;2.0\n", "11;255;0;0;18;2.2.0\n",  # (re-)presentations
     "11;255;3;0;0;55\n", "11;255;3;0;11;sketch\n", "11;255;3;0;18;\n", "11;255;3;0;33;\n", "11;255;3;0;6;0\n", "11;255;3;0;1;\n",
+    "0;255;3;0;14;Gateway startup complete.\n", "0;255;3;0;18;\n", "0;255;3;0;6;0\n", "11;255;3;0;21;\n", "11;255;3;0;13;\n", "11;255;3;0;24;1\n", "11;255;3;0;12;1.0\n",
+    "11;255;4;0;0;00\n", "255;255;3;0;3;\n", "11;7;3;0;3;\n",
     "1;255;3;0;22;7\n", "1;255;3;0;32;500\n", "0;255;3;0;9;log\n", "0;255;3;0;2;2.2.0\n", "0;255;3;0;2;2.0.0\n", "junk\n", "11;1;1;0;3;1\n11;1;1;0;3;1\n",
 )
 
@@ -127,6 +130,9 @@ def enumerate_cases(tier: str):
                 for line in INTERVENING:
                     ops = [["send", [11, 1, 1, 0, 3, value], None], ["send", [1, 2, 1, 0, 3, value], None]]
                     ops += [["rx", l + "\n"] for l in line.rstrip("\n").split("\n")] + [["rx", wake], ["session"], ["rx", wake]]
+                    yield {"version": version, "registry": registry, "ops": ops, "listen_mode": mode}
+                for event in (["save"], ["reload"], ["session"]):
+                    ops = [["send", [11, 1, 1, 0, 3, value], None], ["send", [1, 2, 1, 0, 3, value], None], event, ["rx", wake], ["rx", wake]]
                     yield {"version": version, "registry": registry, "ops": ops, "listen_mode": mode}
     # many parked commands for one node: all of them are owed at its next wake, however many there are
     for version in ("2.0", "2.2"):
